@@ -135,6 +135,7 @@ cleanable.clean();
 #![cfg_attr(all(feature = "nightly", not(feature = "std")), feature(thread_local))] // no-std related unstable features
 #![cfg_attr(doc_auto_cfg, feature(doc_auto_cfg))]
 #![cfg_attr(not(feature = "std"), no_std)]
+#![cfg_attr(kani, feature(thread_local, stmt_expr_attributes, proc_macro_hygiene))] // verification hook (H1), see /verif/DESIGN.md
 
 #![deny(rustdoc::broken_intra_doc_links)]
 #![allow(clippy::missing_const_for_thread_local)]
@@ -155,9 +156,15 @@ use crate::lists::*;
 use crate::state::{replace_state_field, State, try_state};
 use crate::trace::ContextInner;
 use crate::utils::*;
+#[cfg(kani)]
+use crate::verif::rust_cc_thread_local; // verification hook (H1): destructor-free thread-local for POSSIBLE_CYCLES under Kani
 
 #[cfg(all(test, feature = "std"))]
 mod tests;
+
+#[cfg(kani)]
+#[path = "/verif/kani/root.rs"]
+mod verif; // verification hook (H1): ghost state, probes and contract harnesses live in /verif
 
 mod cc;
 mod counter_marker;
